@@ -8,12 +8,15 @@ package run
 
 import (
 	"bufio"
+	"bytes"
 	"context"
 	"encoding/json"
 	"errors"
 	"fmt"
 	"io"
 	"os"
+	"runtime"
+	"sort"
 	"strconv"
 	"time"
 
@@ -91,6 +94,13 @@ type SinkSpec struct {
 	ErrID   int  `json:"errid"`
 	SW      bool `json:"sw"`      // implements io.StringWriter
 	Flusher bool `json:"flusher"` // implements http.Flusher
+	// RF: the writer also implements io.ReaderFrom (with SW and Flusher: what net/http's response writer offers).
+	RF bool `json:"rf,omitempty"`
+	// Wrap > 0: the destination handed to Render is the caller's *bufio.Writer of that size in front of the scripted
+	// writer (which then is what fails / is observed). The caller flushes it after Render and Resets it after an error.
+	Wrap int `json:"wrap,omitempty"`
+	// BB: the destination is a *bytes.Buffer (never fails; only its contents are observed).
+	BB bool `json:"bb,omitempty"`
 }
 
 type Job struct {
@@ -105,6 +115,22 @@ type Job struct {
 	// Reuse: render into the very same destination VALUE as the previous direct render of this process (the same
 	// connection / recorder object used again), after re-arming it with this job's Sink (healed, or failing elsewhere).
 	Reuse bool `json:"reuse,omitempty"`
+	// Slot != 0 names a destination OBJECT the caller keeps: the first job that mentions a slot creates the object,
+	// later jobs with the same slot render into the very same object again (its scripted writer re-armed with this
+	// job's Sink), other renders - into other objects - happening in between. NewSeq forgets all objects first.
+	Slot   int  `json:"slot,omitempty"`
+	NewSeq bool `json:"newseq,omitempty"`
+	// GC: two garbage collections before the render, which empty sync.Pool - the render is then served by a
+	// brand-new pooled buffer, as at process start.
+	GC bool `json:"gc,omitempty"`
+}
+
+// Foreign reports that a destination object other than the one a render was given saw calls during that render
+// (or during the caller's flush of its buffered writer afterwards).
+type Foreign struct {
+	Slot  int `json:"slot"`
+	Calls int `json:"calls"`
+	Bytes int `json:"bytes"`
 }
 
 type Call struct {
@@ -120,6 +146,13 @@ type Obs struct {
 	Marks []int  `json:"marks,omitempty"`
 	Spun  bool   `json:"spun,omitempty"`
 	Panic string `json:"panic,omitempty"`
+	// destination = the caller's bufio.Writer: Out / Calls are those of the writer behind it, after the caller's
+	// Flush; FRes is that Flush's result, NRender the number of Calls made before Render returned, Thru the bytes
+	// that had arrived by then.
+	FRes    string    `json:"fres,omitempty"`
+	NRender int       `json:"nrender,omitempty"`
+	Thru    int       `json:"thru,omitempty"`
+	Foreign []Foreign `json:"foreign,omitempty"`
 }
 
 // ---------- errors ----------
@@ -246,6 +279,127 @@ func (s sinkWSF) Write(p []byte) (int, error)       { return s.b.write(p) }
 func (s sinkWSF) WriteString(p string) (int, error) { return s.b.write([]byte(p)) }
 func (s sinkWSF) Flush()                            { s.b.marks = append(s.b.marks, len(s.b.got)) }
 
+// what net/http's response writer offers: Write, WriteString, Flush and ReadFrom
+type sinkHTTP struct{ b *base }
+
+func (s sinkHTTP) Write(p []byte) (int, error)       { return s.b.write(p) }
+func (s sinkHTTP) WriteString(p string) (int, error) { return s.b.write([]byte(p)) }
+func (s sinkHTTP) Flush()                            { s.b.marks = append(s.b.marks, len(s.b.got)) }
+func (s sinkHTTP) ReadFrom(r io.Reader) (int64, error) {
+	var total int64
+	buf := make([]byte, 512)
+	for {
+		n, rerr := r.Read(buf)
+		if n > 0 {
+			k, werr := s.b.write(buf[:n])
+			total += int64(k)
+			if werr != nil {
+				return total, werr
+			}
+			if k < n {
+				return total, io.ErrShortWrite
+			}
+		}
+		if rerr == io.EOF {
+			return total, nil
+		}
+		if rerr != nil {
+			return total, rerr
+		}
+	}
+}
+
+// ---------- destination objects the caller keeps ----------
+
+type slot struct {
+	spec  SinkSpec      // the kind the object was created with
+	w     io.Writer     // what Render is given
+	inner io.Writer     // the scripted writer (== w unless wrapped)
+	b     *base         // its record
+	bw    *bufio.Writer // the caller's buffered writer, if any
+	bb    *bytes.Buffer // the caller's bytes.Buffer, if any
+	calls int           // calls / bytes this object had seen when its own last render ended
+	bytes int
+}
+
+func (s *slot) seen() (int, int) {
+	if s.bb != nil {
+		return 0, s.bb.Len()
+	}
+	return len(s.b.calls), len(s.b.got)
+}
+
+var slots = map[int]*slot{}
+
+func sameKind(a, b SinkSpec) bool {
+	return a.SW == b.SW && a.Flusher == b.Flusher && a.RF == b.RF && a.Wrap == b.Wrap && a.BB == b.BB
+}
+
+// slotFor returns the caller's destination object for a job, creating it on first use and re-arming it otherwise.
+func slotFor(j *Job) *slot {
+	if j.NewSeq {
+		slots = map[int]*slot{}
+	}
+	if s, ok := slots[j.Slot]; ok && sameKind(s.spec, j.Sink) {
+		b := s.b
+		b.spec, b.limit, b.tripped, b.zeros = j.Sink, j.Sink.Limit, false, 0
+		b.got, b.calls, b.marks = nil, nil, nil
+		if s.bb != nil {
+			s.bb.Reset()
+		}
+		s.calls, s.bytes = 0, 0
+		return s
+	}
+	s := &slot{spec: j.Sink}
+	switch {
+	case j.Sink.BB:
+		s.bb = new(bytes.Buffer)
+		s.w, s.b = s.bb, &base{spec: j.Sink}
+	default:
+		s.inner, s.b = newSink(j.Sink)
+		s.w = s.inner
+		if j.Sink.Wrap > 0 {
+			s.bw = bufio.NewWriterSize(s.inner, j.Sink.Wrap)
+			s.w = s.bw
+		}
+	}
+	slots[j.Slot] = s
+	return s
+}
+
+// epilogue is what the caller does once Render has returned: flush its buffered writer (and Reset it if that
+// reports an error - a bufio.Writer's error is sticky); then every other destination object is looked at.
+func (s *slot) epilogue(j *Job, o *Obs) {
+	if s.bw != nil {
+		o.Thru, o.NRender = len(s.b.got), len(s.b.calls)
+		ferr := s.bw.Flush()
+		o.FRes = Classify(ferr)
+		if ferr != nil {
+			s.bw.Reset(s.inner)
+		}
+	}
+	if s.bb != nil {
+		s.b.got = append([]byte(nil), s.bb.Bytes()...)
+	}
+	o.Out, o.Calls, o.Marks = s.b.got, s.b.calls, s.b.marks
+	s.calls, s.bytes = s.seen()
+	ids := make([]int, 0, len(slots))
+	for id := range slots {
+		ids = append(ids, id)
+	}
+	sort.Ints(ids)
+	for _, id := range ids {
+		t := slots[id]
+		if t == s {
+			continue
+		}
+		if c, n := t.seen(); c != t.calls || n != t.bytes {
+			o.Foreign = append(o.Foreign, Foreign{Slot: id, Calls: c - t.calls, Bytes: n - t.bytes})
+			t.calls, t.bytes = c, n
+		}
+	}
+}
+
 // the destination of the previous direct render in this process
 var lastW io.Writer
 var lastB *base
@@ -266,6 +420,8 @@ func sinkFor(j *Job) (io.Writer, *base) {
 func newSink(spec SinkSpec) (io.Writer, *base) {
 	b := &base{spec: spec, limit: spec.Limit}
 	switch {
+	case spec.RF:
+		return sinkHTTP{b}, b
 	case spec.SW && spec.Flusher:
 		return sinkWSF{b}, b
 	case spec.SW:
@@ -507,6 +663,13 @@ func Exec(j *Job, probes Probes) (o Obs) {
 		s, err := templ.ToGoHTML(ctx, comp)
 		return Obs{Res: Classify(err), Out: []byte(s)}
 	}
+	if j.GC {
+		runtime.GC()
+		runtime.GC()
+	}
+	if j.Slot != 0 {
+		return execSlot(j, comp, ctx)
+	}
 	w, b := sinkFor(j)
 	defer func() {
 		if r := recover(); r != nil {
@@ -519,6 +682,24 @@ func Exec(j *Job, probes Probes) (o Obs) {
 	}()
 	err := comp.Render(ctx, w)
 	return Obs{Res: Classify(err), Out: b.got, Calls: b.calls, Marks: b.marks}
+}
+
+// execSlot renders into one of the destination objects the caller keeps and then plays the caller's part.
+func execSlot(j *Job, comp templ.Component, ctx context.Context) (o Obs) {
+	s := slotFor(j)
+	defer func() {
+		if r := recover(); r != nil {
+			if _, ok := r.(spin); ok {
+				o = Obs{Res: "spin", Out: s.b.got, Calls: s.b.calls, Marks: s.b.marks, Spun: true}
+				return
+			}
+			o = Obs{Res: "other:panic", Out: s.b.got, Calls: s.b.calls, Marks: s.b.marks, Panic: fmt.Sprint(r)}
+		}
+	}()
+	err := comp.Render(ctx, s.w)
+	o = Obs{Res: Classify(err)}
+	s.epilogue(j, &o)
+	return o
 }
 
 // Serve is the probe runner's main loop: one JSON job per line in, one JSON observation per line out.
